@@ -269,12 +269,12 @@ ensures
         && (*kind is Byte ==> r.1 == SyntaxKind::BYTE) && (*kind is Str ==> r.1 == SyntaxKind::STRING)
         && (*kind is BitStr ==> r.1 == SyntaxKind::BIT_STRING),                                          //@C15:literal-kind-table
     // every malformedness flag yields a (non-empty) lexical diagnostic; well-formed literals yield none
-    (*kind is Int ==> (r.0@.len() > 0) == kind->Int_empty_int),                                        //@C11:empty-int-diagnosed
-    (*kind is Float ==> (r.0@.len() > 0) == kind->Float_empty_exponent),                               //@C11:empty-exponent-diagnosed
-    (*kind is Byte ==> (r.0@.len() > 0) == !kind->Byte_terminated),                                    //@C11:unterminated-diagnosed
-    (*kind is Str ==> (r.0@.len() > 0) == !kind->Str_terminated),                                      //@C11:unterminated-diagnosed
+    (*kind is Int ==> (r.0@.len() > 0) == kind->Int_empty_int),                                        //@C11,C15:empty-int-diagnosed-and-only-then
+    (*kind is Float ==> (r.0@.len() > 0) == kind->Float_empty_exponent),                               //@C11,C15:empty-exponent-diagnosed-and-only-then
+    (*kind is Byte ==> (r.0@.len() > 0) == !kind->Byte_terminated),                                    //@C11,C15:unterminated-diagnosed-and-only-then
+    (*kind is Str ==> (r.0@.len() > 0) == !kind->Str_terminated),                                      //@C11,C15:unterminated-diagnosed-and-only-then
     (*kind is BitStr && !kind->BitStr_terminated ==> r.0@.len() > 0),                                  //@C11:unterminated-bitstring-diagnosed
-    (*kind is BitStr && kind->BitStr_terminated && !kind->BitStr_consecutive_underscores ==> r.0@.len() == 0),
+    (*kind is BitStr && kind->BitStr_terminated && !kind->BitStr_consecutive_underscores ==> r.0@.len() == 0),      //@C15,C11:well-formed-bitstring-not-diagnosed
 """)
     x.fn('inner_extend_token', ret='r', props=XP, ghost=[REVEAL, ('{', 'after', 'proof {\n' + '\n'.join('reveal_strlit("%s"); assert(%s);' % (t_, ' && '.join(['"%s"@.len() == %d' % (t_, len(t_))] + ["\"%s\"@[%d] == '%s'" % (t_, i_, c_) for i_, c_ in enumerate(t_)])) for t_ in _all_spellings()) + '\n}')], spec="""
 ensures
